@@ -806,10 +806,21 @@ def single_domain_cases(ctx, C, spec, rng, cs, make_hpr, only=None, forced_activ
             check_sample(ctx, spec, dom, ok, x, dict(seed=seed, draw=j), extreme=False, size=1)
             if not ok:
                 break
-        ok, xs = call(lambda: dom.sample(size=4, random_state=rs))
-        if ok:
-            for x in xs:
-                check_sample(ctx, spec, dom, True, x, dict(seed=seed, size=4), extreme=False, size=4)
+        # result shape: the bare value for size == 1 (and by default), a list of `size` values otherwise
+        for k_ in (1, 2, 4, 5):
+            ok, xs = call(lambda: dom.sample(size=k_, random_state=rs))
+            if not ok:
+                check_sample(ctx, spec, dom, False, xs, dict(seed=seed, size=k_), extreme=False, size=k_)
+                continue
+            shape_ok = (not isinstance(xs, (list, tuple, np.ndarray))) if k_ == 1 else (isinstance(xs, list) and len(xs) == k_)
+            if not shape_ok:
+                ctx.violation("property", "%r.sample(size=%d) = %r: expected %s" % (
+                    dom, k_, xs, "the bare value" if k_ == 1 else "a list of %d values" % k_),
+                    case=dict(spec=spec, only="sample_real", how=dict(seed=seed, size=k_)),
+                    signature=dict(op="sample", domain=type(dom).__name__, constructor=kind, defect="wrong_result_shape", size=k_))
+                continue
+            for x in ([xs] if k_ == 1 else xs):
+                check_sample(ctx, spec, dom, True, x, dict(seed=seed, size=k_), extreme=False, size=k_)
         ctx.count(("sample_real", spec, seed), nontrivial=False)
 
     # ---------------- cast / is_valid ---------------------------------------------------------------
@@ -967,6 +978,61 @@ def check_sample(ctx, spec, dom, ok, x, how, extreme, size, op="sample", case=No
                   case=case, signature=sig)
 
 
+def check_random_configs(ctx, hpr, rs, targets, case, sig_extra):
+    """random_configs(rs, k) for k in {0, 1, 2, 5}: no exception, exactly k configurations, every value a
+    member (right type) of its (active / fixed) domain.  targets: key -> (spec, real domain)."""
+    for k_ in (0, 1, 2, 5):
+        ok, cfgs = call(lambda: hpr.random_configs(rs, k_))
+        ctx.count(("random_configs", case, k_), nontrivial=k_ == 1)
+        ctx.h("op", "random_configs")
+        sig = dict(op="random_configs", num_configs=k_, **sig_extra)
+        if not ok:
+            ctx.violation("property", "random_configs(rs, %d) raises %s" % (k_, cfgs), case=case, signature=dict(sig, defect="raises"))
+            continue
+        if not (isinstance(cfgs, list) and len(cfgs) == k_ and all(isinstance(c, dict) and set(c) == set(targets) for c in cfgs)):
+            ctx.violation("property", "random_configs(rs, %d) = %r: not a list of %d configurations over %s" % (
+                k_, cfgs, k_, sorted(targets)), case=case, signature=dict(sig, defect="wrong_count_or_keys"))
+            continue
+        for c in cfgs:
+            for key, (tspec, tdom) in targets.items():
+                cm = classify_nonmember(tdom, c[key])
+                if cm is not None:
+                    ctx.violation("property", "random_configs(rs, %d): %s=%r (type %s) is not a member of %r" % (
+                        k_, key, c[key], type(c[key]).__name__, tdom), case=case,
+                        signature=dict(sig, defect="config_value_not_member", constructor=tspec["kind"],
+                                       magnitude=cm["magnitude"], value_type=tdom.value_type.__name__))
+
+
+def check_encode_sequence(ctx, hpr, cfg, cont_keys, bounds_of, rng, case, sig_extra):
+    """Encode member configurations that differ by a relative 2e-7 .. 9e-7 in one continuous value (and exact
+    repeats) ONE AFTER ANOTHER on the same HyperparameterRanges object; every round trip must be exact for the
+    discrete values and within 1e-7 relative for the continuous ones."""
+    if not cont_keys:
+        return
+    key = rng.choice(cont_keys)
+    lo, hi = bounds_of[key]
+    a = float(cfg[key])
+    seq = [dict(cfg)]
+    for _ in range(2):
+        d = rng.uniform(2e-7, 9e-7)
+        b = a * (1 + d) if lo <= a * (1 + d) <= hi else a * (1 - d)
+        if lo <= b <= hi and b != a:
+            seq.append(dict(cfg, **{key: float(b)}))
+    seq.append(dict(cfg))     # exact repeat
+    if len(seq) < 3:
+        return
+    ctx.count(("encode_sequence", case, key), nontrivial=True)
+    ctx.h("op", "encode_sequence")
+    for step, c in enumerate(seq):
+        ok, back = call(lambda: hpr.from_ndarray(hpr.to_ndarray(c)))
+        if not ok or any(not same_value(back[k], c[k], k in cont_keys) for k in c):
+            ctx.violation("property", "encoding %r one after another on the same object: round trip of step %d (%s=%r) gives %r" % (
+                [s_[key] for s_ in seq], step, key, c[key], back if not ok else back[key]), case=case,
+                signature=dict(op="round_trip", defect="round_trip_differs", sequence_on_one_object=True, step=min(step, 1),
+                               **sig_extra))
+            break
+
+
 def range_cases(ctx, C, spec, active, dom, adom, hpr, rng, count, scale):
     kind = spec["kind"]
     cont = kind in ("uniform", "loguniform", "reverseloguniform", "quniform", "qloguniform")
@@ -1107,6 +1173,13 @@ def range_cases(ctx, C, spec, active, dom, adom, hpr, rng, count, scale):
                      dict(random_config=True, full=spec), extreme=False, size=1, op="random_config")
         if not okr:
             break
+    check_random_configs(ctx, hpr, rs, {"x": (active if active is not None else spec, adom if active is not None else dom)},
+                         case, dict(space=False))
+    if cont and kind in ("uniform", "loguniform", "reverseloguniform"):
+        okr, cfg = call(lambda: {"x": dom.sample(random_state=rs)})
+        if okr and is_member(dom, cfg["x"]):
+            check_encode_sequence(ctx, hpr, cfg, ["x"], {"x": (float(spec["lower"]), float(spec["upper"]))}, rng, case,
+                                  dict(space=False, constructor=kind))
 
 
 def space_cases(ctx, C, rng, cs, make_hpr, spaces):
@@ -1153,6 +1226,11 @@ def _space_cases(ctx, C, rng, cs, make_hpr, spaces):
                   "act": gen_spec(rng, rng.choice(["choice", "randint", "ordinal_equal"]))}
             spaces.append(dict(space=sp, active={}, prefix_keys=rng.choice([None, None, ["lr"]]), name_last_pos="task",
                                fix_last=True, seed=rng.randrange(2 ** 31)))
+        # all-string spaces (random_configs with num_configs == 1 must not index into a string)
+        for _ in range(ctx.n(2, 10)):
+            sp = {"act": dict(kind="choice", categories=["relu", "tanh", "gelu"]),
+                  "opt": dict(kind=rng.choice(["choice", "ordinal_equal"]), categories=rng.sample(["sgd", "adam", "rmsprop", "lamb"], rng.choice([2, 3, 4])))}
+            spaces.append(dict(space=sp, active={}, prefix_keys=None, name_last_pos=None, fix_last=False, seed=rng.randrange(2 ** 31)))
     for S in spaces:
         okb, built = call(lambda: {k: build(v) for k, v in S["space"].items()})
         if not okb:
@@ -1248,6 +1326,21 @@ def _space_cases(ctx, C, rng, cs, make_hpr, spaces):
                     "uniform", "loguniform", "reverseloguniform")) for k in keys):
                 ctx.violation("property", "space round trip of %r gives %r" % (cfg, back), case=case,
                               signature=dict(op="round_trip", defect="round_trip_differs", space=True))
+        # random_configs(rs, k), k in {0, 1, 2, 5}
+        targets = {}
+        for k in keys:
+            tdom, tspec = abuilt.get(k, built[k]), S["active"].get(k, S["space"][k])
+            if k == S["name_last_pos"] and value_last is not None:
+                tdom, tspec = built[k], S["space"][k]
+            targets[k] = (tspec, tdom)
+        check_random_configs(ctx, hpr, rs, targets, case,
+                             dict(space=True, all_string=all(t[1].value_type is str for t in targets.values())))
+        # encode sequences on ONE object
+        ckeys = [k for k in keys if S["space"][k]["kind"] in ("uniform", "loguniform", "reverseloguniform")]
+        okr, cfg0 = call(lambda: {k: built[k].sample(random_state=rs) for k in keys})
+        if okr and all(is_member(built[k], cfg0[k]) for k in keys):
+            check_encode_sequence(ctx, hpr, cfg0, ckeys, {k: (float(S["space"][k]["lower"]), float(S["space"][k]["upper"])) for k in ckeys},
+                                  rng, case, dict(space=True))
         # fixed last position: member configurations whose last attribute DIFFERS from value_for_last_pos
         # (data from other resource levels / tasks) are encoded w.r.t. the full range and must decode to
         # themselves: from_ndarray must not substitute the fixed value.  Checker only (no model case).
